@@ -96,6 +96,14 @@ func checkC14(c *Ctx) {
 		{"map value by key", func(L string) bool { return L != "" }, func(L string) (string, data.Map) {
 			return "{[" + quoteSoy(L) + ": 'v'][" + quoteSoy(L) + "]}", nil
 		}},
+		// a computed index inside another expression position (the generator renders sub-expressions while
+		// the enclosing statement is being built)
+		{"map lookup in a let value", func(L string) bool { return L != "" }, func(L string) (string, data.Map) {
+			return "{let $mm: [" + quoteSoy(L) + ": " + quoteSoy(L) + "] /}{let $v: 'pre' + $mm[" + quoteSoy(L) + "] /}{$v|noAutoescape}", nil
+		}},
+		{"nested map lookups in a param value", func(L string) bool { return L != "" }, func(L string) (string, data.Map) {
+			return "{let $mm: [" + quoteSoy(L) + ": " + quoteSoy(L) + "] /}{let $kk: ['k': " + quoteSoy(L) + "] /}{call .echo}{param p: 'pre' + $mm[$kk['k']] /}{/call}", nil
+		}},
 		{"css name", func(L string) bool {
 			return noBrace(L) && strings.TrimSpace(L) == L && L != "" && !strings.Contains(L, ",") && !strings.ContainsAny(L, "\n\r")
 		}, func(L string) (string, data.Map) { return "{css " + L + "}", nil }},
@@ -198,6 +206,10 @@ func checkC14(c *Ctx) {
 			c.Observe(key, out)
 			if err != nil {
 				c.Violate("calling the template returns", "mismatch", "call:"+sig, cs, clipq(L), err.Error())
+			} else if o.name == "map lookup in a let value" || o.name == "nested map lookups in a param value" {
+				if out != "pre"+L && utf8.ValidString(L) {
+					c.Violate("every string that originates in the template denotes exactly the original characters", "mismatch", "literal:"+sig, cs, clipq("pre"+L), clipq(out))
+				}
 			} else if o.name == "css name after a prefix expression" {
 				if out != "pre-"+L && utf8.ValidString(L) {
 					c.Violate("every string that originates in the template denotes exactly the original characters", "mismatch", "literal:"+sig, cs, clipq("pre-"+L), clipq(out))
@@ -345,11 +357,11 @@ func checkC14(c *Ctx) {
 		}
 		t := &Tmpl{NS: "app.main", Name: "entry", Params: params, Body: body, Header: variant&1 == 1}
 		main := &File{Name: "main.soy", NS: "app.main", Aliases: []string{"lib.deep"}, Tmpls: []*Tmpl{t}}
-		if len(checkRules([]*File{main, lib[0]})) > 0 {
+		if len(checkRules(withLib(main, lib))) > 0 {
 			return
 		}
-		srcs := map[string]string{"main.soy": main.src(), "lib.soy": lib[0].src()}
-		_, es5, es6, cerr, gerr, v := genJS([]string{"main.soy", "lib.soy"}, srcs, nil)
+		srcs := map[string]string{"main.soy": main.src()}
+		_, es5, es6, cerr, gerr, v := genJS(libSrcs(srcs, lib), srcs, nil)
 		cs := c14case{Files: map[string]string{"main.soy": srcs["main.soy"]}, Origin: "C02 grammar"}
 		key := "bundle\x00" + srcs["main.soy"]
 		sig := "bundle:" + skCmds(body)
@@ -369,7 +381,7 @@ func checkC14(c *Ctx) {
 		}
 		c.Nontrivial()
 		status := "ok"
-		for _, n := range []string{"main.soy", "lib.soy"} {
+		for _, n := range []string{"main.soy", "lib.soy", "sub.soy"} {
 			if err := jsParses(es5[n]); err != nil {
 				status = "syntax error"
 				c.Violate("the generated JavaScript is a syntactically valid script", "mismatch", "syntax:"+sig, cs, "valid script", n+": "+err.Error()+"\n"+clip(es5[n]))
@@ -382,10 +394,11 @@ func checkC14(c *Ctx) {
 		if status == "ok" && c.Index()%5 == 0 {
 			vm, _ := newJSVM()
 			jsRun(vm, es5["lib.soy"])
+			jsRun(vm, es5["sub.soy"])
 			if _, err := jsRun(vm, es5["main.soy"]); err != nil {
 				status = "load error"
 				c.Violate("the generated JavaScript evaluates", "mismatch", "load:"+sig, cs, "loads", err.Error())
-			} else if tv, err := jsRun(vm, "typeof app.main.entry + typeof lib.deep.show + typeof lib.deep.rec"); err != nil || tv.String() != "functionfunctionfunction" {
+			} else if tv, err := jsRun(vm, "typeof app.main.entry + typeof lib.deep.show + typeof lib.deep.rec + typeof lib.deep.sub.leaf"); err != nil || tv.String() != "functionfunctionfunctionfunction" {
 				status = "no function"
 				c.Violate("one function per template under its qualified name", "mismatch", "nofunc:"+sig, cs, "functions", fmt.Sprint(tv, err))
 			}
